@@ -116,12 +116,21 @@ def run_tlc(module, cfg, metadir, workers=1, trace=None, timeout=3000, extra_env
         env["JAVA_TOOL_OPTIONS"] = "-Xss512m -XX:+UseSerialGC -XX:CICompilerCount=2"
     else:
         env["JAVA_TOOL_OPTIONS"] = "-Xss512m -XX:ParallelGCThreads=4"
-    try:
-        p = subprocess.run(cmd, cwd=SPEC, env=env, stdout=subprocess.PIPE, stderr=subprocess.STDOUT, text=True, timeout=timeout)
-    except subprocess.TimeoutExpired:
-        raise ToolError("TLC timed out on %s" % module)
-    out = p.stdout
-    shutil.rmtree(metadir, ignore_errors=True)
+    # TLC's RecordValue normalisation is not thread-safe: with several workers a record whose field-name array is
+    # being sorted by one thread can momentarily lose a field for another ("Attempted to select nonexistent field").
+    # It is a flake of the tool at start-up, independent of the specification and of the code under test, so such a
+    # run is repeated (a real specification error reproduces on every attempt).
+    for attempt in range(4):
+        try:
+            p = subprocess.run(cmd, cwd=SPEC, env=env, stdout=subprocess.PIPE, stderr=subprocess.STDOUT, text=True, timeout=timeout)
+        except subprocess.TimeoutExpired:
+            raise ToolError("TLC timed out on %s" % module)
+        out = p.stdout
+        shutil.rmtree(metadir, ignore_errors=True)
+        if workers > 1 and "TLC threw an unexpected exception" in out:
+            log("TLC record-normalisation race on %s (attempt %d), repeating" % (module, attempt + 1))
+            continue
+        break
     m = None
     for m in STATS_RE.finditer(out):
         pass
